@@ -7,7 +7,7 @@ and the parameter types of the specialised constructors ( ::vec(int _x, ...) ). 
 Prints one line per rewritten file with the number of substitutions (logged in the evidence)."""
 import sys, os, re, shutil
 FILES = ["detail/type_vec_simd.inl", "detail/func_common_simd.inl", "detail/func_integer_simd.inl", "detail/qualifier.hpp", "detail/type_vec4.inl", "detail/type_vec3.inl"]
-ARG = re.compile(r'([<,]\s*)(unsigned int|uint|int)(\s*[,>])')
+ARG = re.compile(r'((?<!_cast)<\s*|,\s*)(unsigned int|uint|int)(\s*[,>])')   # not the target type of a cast inside a body
 def retarget(txt, only_storage=False):
     n = 0
     def sub(m):
